@@ -36,6 +36,16 @@ async fn vf_group_rendezvous() {
             // drained concurrently, or it never reaches the rendezvous
             let pre = if noisy { "head -c 300000 /dev/zero | tr '\\0' 'e' 1>&2\necho started\n" } else { "" };
             if n == 300 { script(&wp.join(&t).join("monorail/cmd"), "meet.sh", "for k in 1 2 3 4 5 6 7; do echo \"progress $k\" 1>&2; sleep 0.45; done\nexit 0"); targets.push(format!("{{\"path\":\"{}\"}}", t)); continue; }
+            // in the group of 12 every third member's command file is a symbolic link to one shared script (it finds its own name
+            // from its working directory): such a member is a member like any other
+            if n == 12 && i % 3 == 1 {
+                script(&wp.join("shared"), "meet_shared.sh", &format!(
+                    "t=$(basename \"$PWD\")\ntouch '{m}'/\"$t\"\nfor k in $(seq 1 160); do c=$(ls '{m}' | wc -l); if [ \"$c\" -ge {n} ]; then exit 0; fi; sleep 0.05; done\nexit 1", m = marks.display(), n = n));
+                std::fs::create_dir_all(wp.join(&t).join("monorail/cmd")).unwrap();
+                std::os::unix::fs::symlink(wp.join("shared/meet_shared.sh"), wp.join(&t).join("monorail/cmd/meet.sh")).unwrap();
+                targets.push(format!("{{\"path\":\"{}\"}}", t));
+                continue;
+            }
             script(&wp.join(&t).join("monorail/cmd"), "meet.sh", &format!(
                 "{pre}touch '{m}/{t}'\nfor k in $(seq 1 160); do c=$(ls '{m}' | wc -l); if [ \"$c\" -ge {n} ]; then exit 0; fi; sleep 0.05; done\nexit 1", m = marks.display(), t = t, n = n, pre = pre));
             targets.push(format!("{{\"path\":\"{}\"}}", t));
